@@ -103,6 +103,10 @@ let run (input : string) (obs : string) : string * string =
       else if get "result" = "is/1" then "fail:error-and-allowed-together"
       else "pass" in
     ("SKIP", v)
+  | "enet" ->
+    (* ONE registry serving two networks through the request context answers, for each network, what a registry of its
+       own answers on the same rows (C06) *)
+    ("SKIP", if obs = "same" then "pass" else "fail:registry-serving-two-networks-answers-differently-from-a-registry-of-that-network")
   | "estress" ->
     ("SKIP", if obs = "same" then "pass" else "fail:answer-depends-on-the-goroutine-schedule")
   | "eeff" ->
